@@ -17,10 +17,11 @@ STALE = "revoke-applies-stale-validation"
 
 #            leg A configurations      leg B (cfg, fee, pct)                                leg C (name, fee, pct, num, depth)
 TIERS = {
-    "quick": {"a": ["pay", "route"],
+    "quick": {"a": [("pay", 0, 10), ("route", 0, 10)],
               "b": [("pay", 0, 10), ("route", 0, 10), ("pay", 1, 100)],
               "c": [("sim2", 0, 10, 40, 40)]},
-    "thorough": {"a": ["pay", "route", "loop", "three", "parts"],
+    "thorough": {"a": [("pay", 0, 10), ("route", 0, 10), ("loop", 0, 10), ("three", 0, 10), ("parts", 0, 10),
+                       ("pay", 1, 100), ("route", 1, 100)],
                  "b": [("pay", 0, 10), ("route", 0, 10), ("pay", 1, 100), ("pay", 1, 10), ("route", 1, 100),
                        ("loop", 0, 10), ("three", 0, 10), ("parts", 0, 10)],
                  "c": [("sim2", 0, 10, 150, 50), ("sim3", 0, 10, 100, 50), ("sim2", 1, 100, 100, 50)]},
@@ -80,10 +81,10 @@ def run(pid, tier):
     samples = []
 
     # ---- leg A: the model itself, with the switch as the code behaves and as repaired
-    for cfg in plan["a"]:
+    for cfg, fee, pct in plan["a"]:
         for rv in sorted({sw["revokeValidates"], True}):
-            a = payments.leg_a(cfg, 0, 10, rv, "ab", ["C06a", "C06b", "TypeOK"], props=["Frame"])
-            cov["legs"]["A_model_%s_%s" % (cfg, "repaired" if rv and not sw["revokeValidates"] else "as_code")] = {
+            a = payments.leg_a(cfg, fee, pct, rv, "ab", ["C06a", "C06b", "TypeOK"], props=["Frame"])
+            cov["legs"]["A_model_%s_fee%d_%s" % (cfg, fee, "repaired" if rv and not sw["revokeValidates"] else "as_code")] = {
                 "states": a["distinct"], "transitions": a["states"], "depth": a["depth"], "violated": a["violated"],
                 "wall_s": round(a["wall_s"], 1)}
             tot_states += a["distinct"]
